@@ -6,6 +6,7 @@ use crate::util::*;
 use flo_curves::bezier::path::*;
 use flo_curves::*;
 use std::collections::HashMap;
+use flo_curves::bezier::curve_intersects_ray;
 
 const PROP: &str = "C14";
 const ACC: f64 = 0.01;
@@ -43,7 +44,8 @@ fn on_edge(e: &Edge, q: Coord2, tol: f64) -> bool {
 fn overlap_near(a: &Edge, ta: f64, b: &Edge) -> bool {
     let lo = bez(&a.cubic, (ta - 0.02).max(0.0));
     let hi = bez(&a.cubic, (ta + 0.02).min(1.0));
-    dist(lo, hi) > 0.004 && on_edge(b, lo, 0.001) && on_edge(b, hi, 0.001)
+    // the code's tie window is 0.001 in x and in y, i.e. up to 0.0015 apart
+    dist(lo, hi) > 0.004 && on_edge(b, lo, 0.0015) && on_edge(b, hi, 0.0015)
 }
 
 fn gen_line(rng: &mut Rng, g: &G, edges: &[Edge], want_class: u64) -> ((Coord2, Coord2), &'static str) {
@@ -134,8 +136,9 @@ fn check_line(stats: &mut Stats, g: &G, edges: &[Edge], refs: &HashMap<GraphEdge
     for k in 1..cols.len() {
         let (s0, s1) = (cols[k - 1].2, cols[k].2);
         if s0 <= s1 { continue; }
-        // a tie: positions within 0.001 of each other on overlapping edges
-        let tie = (s0 - s1) * l <= 0.001 && match (idx[k - 1], idx[k]) { (Some(a), Some(b)) => a != b && (overlap_near(&edges[a], cols[k - 1].1, &edges[b]) || overlap_near(&edges[b], cols[k].1, &edges[a])), _ => false };
+        // a tie: positions within 0.001 of each other in x and in y (the window of the code's comparator) on overlapping edges
+        let (pa, pb) = (cols[k - 1].3, cols[k].3);
+        let tie = (pa.0 - pb.0).abs() <= 0.001 && (pa.1 - pb.1).abs() <= 0.001 && match (idx[k - 1], idx[k]) { (Some(a), Some(b)) => a != b && (overlap_near(&edges[a], cols[k - 1].1, &edges[b]) || overlap_near(&edges[b], cols[k].1, &edges[a])), _ => false };
         if tie { stats.count("ties_on_shared_edges"); continue; }
         stats.fail(PROP, &format!("unsorted.{}", cfg), &format!("collision {} at line position {} comes before collision {} at {}; {}", k - 1, s0, k, s1, show()));
         break;
@@ -187,7 +190,13 @@ pub fn search(seed: u64, n: u64) {
         check_graph(&mut stats, &mut rng, &g, "plain_path", 25, &detail);
     }
     for it in 0..n {
-        if it % 2 == 0 {
+        if it % 5 == 4 {
+            let (a, b) = nearly_coincident_pair(&mut rng, it % 25 == 4);
+            stats.count("graph.nearly_coincident_collided_graph");
+            let detail = || format!("graph=collide(A,B) A={:?} B={:?}", a, b);
+            stats.case(&detail(), true);
+            if let Some(g) = collided(&mut stats, &vec![a.clone()], &vec![b.clone()]) { check_graph(&mut stats, &mut rng, &g, "nearly_coincident_collided_graph", 20, &detail); }
+        } else if it % 2 == 0 {
             let s = rand_shape(&mut rng);
             let p = redirect(&mut rng, &s.path);
             stats.count(&format!("kind.{}", s.kind));
@@ -206,4 +215,203 @@ pub fn search(seed: u64, n: u64) {
         }
     }
     stats.print(PROP, "search");
+}
+
+// ------------------------------------------------------------------------------------------------ correspondence
+
+/// (start_idx, edge_idx, reverse) of an edge reference (its fields are crate-private; `Debug` prints them)
+fn ref_fields(r: &GraphEdgeRef) -> (usize, usize, bool) {
+    let s = format!("{:?}", r);
+    let num = |key: &str| -> usize { let i = s.find(key).expect("edge ref field") + key.len(); s[i..].trim_start().chars().take_while(|c| c.is_ascii_digit()).collect::<String>().parse().expect("edge ref number") };
+    (num("start_idx:"), num("edge_idx:"), s.contains("reverse: true"))
+}
+
+/// the graph as the `RayPath` interface exposes it: per point its position, its forward edges (control points, end point,
+/// following edge), the points it is connected from (reconstructed from the order of `reverse_edges_for_point`), and the
+/// reverse edges themselves
+fn dump_graph(g: &G) -> String {
+    let np = g.num_points();
+    let mut out = vec![format!("#{}", np)];
+    for p in 0..np {
+        let pos = g.point_position(p);
+        out.push(hx(pos.0)); out.push(hx(pos.1));
+        let refs: Vec<GraphEdgeRef> = g.edge_refs_for_point(p).collect();
+        out.push(format!("#{}", refs.len()));
+        for r in &refs {
+            let e = g.get_edge(*r);
+            let (cp1, cp2) = e.control_points();
+            let (_, following, _) = ref_fields(&g.following_edge_ref(*r));
+            out.push(hxs(&[cp1.0, cp1.1, cp2.0, cp2.1]));
+            out.push(format!("#{} #{}", e.end_point_index(), following));
+        }
+        let rev: Vec<(usize, usize, bool)> = g.reverse_edges_for_point(p).map(|e| ref_fields(&GraphEdgeRef::from(e))).collect();
+        // `connected_from`: a new entry starts whenever the start point changes or the edge index does not increase
+        let mut cf: Vec<usize> = vec![];
+        for (k, (s, e, _)) in rev.iter().enumerate() { if k == 0 || rev[k - 1].0 != *s || rev[k - 1].1 >= *e { cf.push(*s); } }
+        out.push(format!("#{}", cf.len()));
+        for c in &cf { out.push(format!("#{}", c)); }
+        out.push(format!("#{}", rev.len()));
+        for (s, e, r) in &rev { out.push(format!("#{} #{} #{}", s, e, *r as u8)); }
+    }
+    out.join(" ")
+}
+
+/// lines outside the property's precondition as well: through vertices, along straight edges, tangent to an edge
+fn gen_line_corr(rng: &mut Rng, g: &G, edges: &[Edge], k: u64) -> ((Coord2, Coord2), &'static str) {
+    let np = g.num_points();
+    let span = |rng: &mut Rng, q: Coord2, d: Coord2| -> (Coord2, Coord2) {
+        let d = d * (1.0 / len(d));
+        let s1 = rng.r(-80.0, 80.0);
+        let mut s2 = rng.r(-80.0, 80.0);
+        if (s2 - s1).abs() < 1.0 { s2 = s1 + 1.0 + rng.r(0.0, 50.0); }
+        (q + d * s1, q + d * s2)
+    };
+    match k % 10 {
+        0..=4 => gen_line(rng, g, edges, k % 5),
+        5 => {
+            let v = g.point_position(rng.i(np as u64) as usize);
+            let a = rng.r(0.0, TAU);
+            (span(rng, v, Coord2(a.cos(), a.sin())), "through_vertex")
+        }
+        6 => {
+            let v = g.point_position(rng.i(np as u64) as usize);
+            let d = if rng.b() { Coord2(1.0, 0.0) } else { Coord2(0.0, 1.0) };
+            (span(rng, v, d), "through_vertex_axis_parallel")
+        }
+        7 => {
+            let (v, w) = (g.point_position(rng.i(np as u64) as usize), g.point_position(rng.i(np as u64) as usize));
+            if dist(v, w) < 1e-6 { return gen_line(rng, g, edges, 0); }
+            if rng.b() { ((v, w), "through_two_vertices") } else { (span(rng, v, w - v), "through_two_vertices") }
+        }
+        8 => {
+            let straight: Vec<usize> = (0..edges.len()).filter(|i| edges[*i].straight && dist(edges[*i].cubic[0], edges[*i].cubic[3]) > 1e-6).collect();
+            if straight.is_empty() { return gen_line(rng, g, edges, 4); }
+            let c = &edges[straight[rng.i(straight.len() as u64) as usize]].cubic;
+            (span(rng, c[0], c[3] - c[0]), "along_straight_edge")
+        }
+        _ => {
+            let i = rng.i(edges.len() as u64) as usize;
+            let t = rng.r(0.05, 0.95);
+            let (q, d) = (bez(&edges[i].cubic, t), bez_d(&edges[i].cubic, t));
+            if len(d) < 1e-9 { return gen_line(rng, g, edges, 0); }
+            (span(rng, q, d), "tangent_to_edge")
+        }
+    }
+}
+
+fn corr_line(stats: &mut Stats, g: &G, graph_dump: &str, gclass: &str, line: (Coord2, Coord2), lclass: &str) {
+    let mut ins = vec![graph_dump.to_string(), hxs(&[line.0 .0, line.0 .1, line.1 .0, line.1 .1])];
+    let mut n_hits = 0;
+    for r in g.all_edge_refs() {
+        let e = g.get_edge(r);
+        let hits = curve_intersects_ray(&e, &line);
+        n_hits += hits.len();
+        ins.push(format!("#{}", hits.len()));
+        for (t, s, pos) in hits { ins.push(hxs(&[t, s, pos.0, pos.1])); }
+    }
+    quiet_panics();
+    let res = std::panic::catch_unwind(std::panic::AssertUnwindSafe(|| g.ray_collisions(&line)));
+    let outs = match &res {
+        Err(_) => { stats.count(&format!("panic{}", panic_class(&last_panic()))); format!("#0 #{}", if last_panic().contains("total order") { 1 } else { 0 }) }
+        Ok(cols) => {
+            let mut o = vec![format!("#1 #{}", cols.len())];
+            for (c, t, s, pos) in cols {
+                let (si, ei, rv) = ref_fields(&c.edge());
+                o.push(format!("#{} #{} #{} #{} {}", c.is_intersection() as u8, si, ei, rv as u8, hxs(&[*t, *s, pos.0, pos.1])));
+            }
+            stats.count(&format!("collisions.{}", if cols.len() > 6 { "7_or_more".to_string() } else { cols.len().to_string() }));
+            if cols.len() % 2 == 1 { stats.count("odd_number_of_collisions"); }
+            if cols.iter().any(|(c, _, _, _)| c.is_intersection()) { stats.count("has_intersection_collision"); }
+            o.join(" ")
+        }
+    };
+    let text = format!("C14 ray R {} | {}", ins.join(" "), outs);
+    stats.case(&text, n_hits > 0);
+    stats.count(&format!("line.{}", lclass));
+    stats.count(&format!("graph.{}", gclass));
+    println!("{}", text);
+}
+
+/// a shape and a copy moved / scaled by a few hundredths; `fixed`: the pair of the known total-order panic of path arithmetic
+fn nearly_coincident_pair(rng: &mut Rng, fixed: bool) -> (P, P) {
+    if fixed { return (circle45(50.0, 50.0, 11.879), circle(49.963, 50.002, 11.917)); }
+    let k = ["circle", "circle45", "blob", "polygon_convex", "grid_rect"][rng.i(5) as usize];
+    let c = rand_centre(rng);
+    let r = rng.r(8.0, 20.0);
+    let s = shape_of_kind(rng, k, c, r);
+    let (dx, dy, f) = (rng.r(-0.05, 0.05), rng.r(-0.05, 0.05), 1.0 + rng.r(-0.004, 0.004));
+    let t: P = map_path(&s.path, &|q| c + (q - c) * f + Coord2(dx, dy));
+    let t = if k == "circle" && rng.b() { rotated_about(&t, c, TAU / 8.0) } else { t };
+    (s.path, t)
+}
+
+/// the two circles of the known unsorted output (see `corr`)
+fn unsorted_instance() -> (P, P) {
+    let a: P = (Coord2(60.172239260256475, 50.0), vec![
+        (Coord2(60.172239260256475, 55.61797261506971), Coord2(55.61797261506972, 60.17223926025647), Coord2(50.0, 60.172239260256475)),
+        (Coord2(44.38202738493028, 60.17223926025647), Coord2(39.82776073974353, 55.61797261506972), Coord2(39.827760739743525, 50.0)),
+        (Coord2(39.82776073974353, 44.38202738493028), Coord2(44.38202738493028, 39.82776073974353), Coord2(50.0, 39.827760739743525)),
+        (Coord2(55.61797261506971, 39.827760739743525), Coord2(60.17223926025647, 44.38202738493028), Coord2(60.172239260256475, 50.0))]);
+    let b: P = (Coord2(41.97745730837193, 42.3415055753628), vec![
+        (Coord2(37.81197780517014, 46.5069850785646), Coord2(37.81197780517014, 53.260561737786375), Coord2(41.977457308371925, 57.42604124098816)),
+        (Coord2(46.14293681157372, 61.59152074418996), Coord2(52.8965134707955, 61.59152074418996), Coord2(57.06199297399729, 57.42604124098816)),
+        (Coord2(61.22747247719908, 53.260561737786375), Coord2(61.22747247719908, 46.5069850785646), Coord2(57.06199297399729, 42.34150557536281)),
+        (Coord2(52.8965134707955, 38.176026072161015), Coord2(46.14293681157372, 38.176026072161015), Coord2(41.97745730837193, 42.3415055753628))]);
+    (a, b)
+}
+
+/// transcript for the Lean driver: the graph as `RayPath` sees it, the ray, the real `curve_intersects_ray` result for every
+/// edge (the solver is C04's business) and the real `ray_collisions` output; the model (Float) must reproduce it exactly
+pub fn corr(seed: u64, n: u64) {
+    quiet_panics();
+    let mut rng = Rng(seed ^ 0xC0221C14);
+    let mut stats = Stats::new();
+    let corpus = tangent_corpus();
+    let mut done = 0u64;
+    let mut it = 0u64;
+    const PER_GRAPH: u64 = 10;
+    // a fixed instance of the comparator defect (found by `search C14 1 20000`): two arcs of different circles between the same two
+    // intersection points count as overlapping edges, and the tie-break puts the collision with the larger line position first
+    {
+        let (a, b) = unsorted_instance();
+        if let Some(g) = collided(&mut stats, &vec![a], &vec![b]) {
+            let dump = dump_graph(&g);
+            let line = (Coord2(13.595172672628564, -10.384315809124125), Coord2(39.80243558841849, 25.071558803627074));
+            corr_line(&mut stats, &g, &dump, "corpus_collided_graph", line, "known_unsorted_instance");
+            done += 1;
+        }
+    }
+    while done < n {
+        let (g, gclass): (Option<G>, &str) = if it < 2 * corpus.len() as u64 && it % 2 == 0 {
+            let (_, a, b) = &corpus[(it / 2) as usize];
+            (collided(&mut stats, a, b), "corpus_collided_graph")
+        } else if it % 5 == 1 {
+            // nearly coincident boundaries: a shape and a copy moved / scaled by a few hundredths (the tie-break of the sort
+            // comparator and the overlap test are exercised; the known total-order panic lives here)
+            let (a, b) = nearly_coincident_pair(&mut rng, it % 25 == 1);
+            (collided(&mut stats, &vec![a], &vec![b]), "nearly_coincident_collided_graph")
+        } else if it % 3 == 0 {
+            let s = rand_shape(&mut rng);
+            let p = redirect(&mut rng, &s.path);
+            stats.count(&format!("kind.{}", s.kind));
+            (Some(GraphPath::from_path(&p, PathLabel(0))), "plain_path")
+        } else {
+            let pair = gen_pair(&mut rng);
+            count_pair(&mut stats, &pair);
+            (collided(&mut stats, &pair.a, &pair.b), "collided_graph")
+        };
+        it += 1;
+        let g = match g { Some(g) => g, None => continue };
+        let (edges, _) = edges_of(&g);
+        if edges.is_empty() { continue; }
+        if edges.iter().any(|e| e.shared) { stats.count("graph_has_shared_edge"); }
+        let dump = dump_graph(&g);
+        for k in 0..PER_GRAPH {
+            if done >= n { break; }
+            let (line, lclass) = gen_line_corr(&mut rng, &g, &edges, k + it);
+            corr_line(&mut stats, &g, &dump, gclass, line, lclass);
+            done += 1;
+        }
+    }
+    stats.print(PROP, "corr");
 }
